@@ -236,8 +236,13 @@ def evalOpWith (eqf : Value → Value → Bool) : Opc → Value → Value → Re
   | .lt, l, r => tryCmp .lt l r
   | .le, l, r => tryCmp .le l r
 
+/-- The equality the code under verification uses for `==` / `!=`: the pinned tree's `eq_lossy`.
+    THE switch for the candidate fix: once `eq_lossy` compares Integer/Integer exactly, this becomes
+    `eqFixed` (nothing else in the model changes; Props/C10.lean proves the full statement for it). -/
+abbrev eqImpl : Value → Value → Bool := eqLossy
+
 /-- the pinned tree -/
-def evalOp : Opc → Value → Value → Res Value := evalOpWith eqLossy
+def evalOp : Opc → Value → Value → Res Value := evalOpWith eqImpl
 
 /-- `&&` of `Op::resolve` on resolved operands (`rhs` is evaluated only in the last arm). -/
 def evalAnd : Value → Value → Res Value
